@@ -5,7 +5,6 @@ def wit(fid):
     r = json.load(open(f"{W}/witness_{fid}.json"))
     return {"profile": r["profile"], "scenario": r["scenario"], "signature": r["signature"]}
 known = [
- ("F28", ["C07", "C08"], "chain(X, statically-empty).sorted(s).with_rows_satisfying(p) (or a calculation) buries the un-sliced sort in a subquery without raising; join/chain/materialise on top is accepted; process() prunes the empty branch, re-applies the operations on the now non-compound Select, the sort resurfaces and the order-loss RelationalAlgebraError is raised by process() instead of by the factory call"),
  ("F4", ["C03", "C04"], "Projection.commute moves a projection upstream of a Deduplication when backtracking (sql_leaf.transferred_to(it).without_duplicates().with_only_columns({a}, preferred_engine=sql) returns [1,2] instead of [1,1,2]); tests/test_projection.py::test_backtracking_apply pins this move, so it cannot be repaired without editing the suite"),
  ("F7", ["C08"], "S.sorted([b]).with_only_columns({a,c}).without_duplicates().with_only_columns({a}) is accepted, then to_executable() raises KeyError: b (outer Select keeps a sort on a column its DISTINCT subquery no longer provides); a repair has to decide between refusing at construction and changing semantics - not small"),
  ("F13", ["C17"], "S.with_calculated_column(x, e).with_only_columns({a}): the Select marker's skip_to is the Calculation relation, but its own Projection elided the Calculation from the target chain, so walking target never reaches skip_to (harmless for compilation; marker incoherent)"),
@@ -31,6 +30,7 @@ fixed = [
  ("F23", "C04", "3fe3523", "PartialJoin.commute moved a join beneath a projection hiding a column that the fixed operand also has"),
  ("F29", "C03", "249999f", "an operation with preferred_engine applied to a tree returned by process(): backtracking that fails below a payload-carrying Transfer made reapply() return a payload-less copy, so the half-commuted operation (e.g. a widened Projection) was installed: +[y](Π[c,e,y](→[it](L0))) cannot be evaluated"),
  ("F30", "C14", "d360695", "process() output ending in a round trip it->it2->it (empty chain branch pruned): rel.transferred_to(rel.engine) returned the leaf upstream of the round trip instead of rel itself"),
+ ("F28", "C07", "d0e28da", "chain(X, statically-empty).sorted(s).with_rows_satisfying(p): un-sliced sort buried in a subquery without raising; a join on top accepted; process() pruned the empty branch, the sort resurfaced and the order-loss error was raised by process() instead of the factory call; also C08, C11"),
  ("F27", "C08", "149b8d5", "identity_in_sql.join(rel_in_iteration) accepted: Select marker around an iteration-engine relation; process() AssertionError in Select.reapply; also C20 (engine mismatch not rejected), C14"),
  ("F26", "C14", "8ebe476", "sql_rel.transferred_to(sql) returned a new Select around sql_rel (not the relation itself), burying an un-sliced sort; found through C08 (order-loss error raised only by process())"),
 ]
